@@ -481,6 +481,36 @@ def rule_r6(repo, run):
                   "wrap flags cleared: it disappears from the Python and Lua modules although those wrappers are on "
                   "(switching C/Fortran changes the Python/Lua output)", gm.loc(wipes[0][0]) if wipes else gm.loc(fn))
     run.floor(R, "passes with a C/Fortran-only clone", nr, 2)
+    # inside a loop over child declarations, whatever an emitter does with a child happens under the child's own flag
+    LANG = {"wrapc": "c", "wrapf": "fortran", "wrapp": "python", "wrapl": "lua"}
+    nl = 0
+    for mn, lang in sorted(LANG.items()):
+        m = repo.module(mn)
+        for q, fn in sorted(m.functions().items()):
+            for lp in ast.walk(fn):
+                if not (isinstance(lp, ast.For) and isinstance(lp.target, ast.Name)):
+                    continue
+                v = lp.target.id
+                flag = "%s.wrap.%s" % (v, lang)
+                tests = [n for n in ast.walk(lp) if isinstance(n, ast.If) and flag in m.seg(n.test)]
+                if not tests:
+                    continue
+                nl += 1
+                for c in ast.walk(lp):
+                    if isinstance(c, ast.Call) and any(pyflow.is_name(a, v) for a in c.args) and (pyflow.call_name(c) or "").startswith("self."):
+                        guards = [(str(m.seg(t)), pol) for t, pol in pyflow.dominating_tests(c, stop=lp) + pyflow.early_exit_guards(lp, c)]
+                        ok = any(flag in t and pol for t, pol in guards)
+                        run.check(R, "%s.%s:%s(%s)" % (mn, q, pyflow.call_name(c), v), ok,
+                                  "`%s` is applied to every %s of the loop, also to those whose %s wrapper is off (it is not "
+                                  "under the test of %s): something is emitted for a declaration that was switched off"
+                                  % (m.seg(c), v, lang, flag), m.loc(c))
+    run.floor(R, "loops that filter children by their wrap flag", nl, 6)
+    # a pass that prepares Python-only declarations works on copies
+    from sa import lints
+    for mn, q, node, msg in lints.aliased_then_mutated(repo, "generate", "GenFunctions.add_struct_ctor"):
+        run.fail(R, "%s.%s:alias" % (mn, q), msg + " - the struct's member declarations are shared with the C and Fortran "
+                 "emitters, so switching the Python wrapper on changes their output", gm.loc(node))
+    run.ok(R, "generate.GenFunctions.add_struct_ctor:copies")
 
 
 def rule_x(repo, run):
